@@ -5,7 +5,7 @@ ID = 'C16'
 RULE = ('one case = the real watch_membership_changes task (hook H3) fed with a sequence of membership snapshots over ids 0..3 (joins, leaves, address changes, rejoin; the local node 0 always present), '
         'real tokio watch channel and real WatchStream subscribers created at every position and polled at chosen positions; observed: every delta a subscriber receives and its accumulated '
         'live map at the end, compared with the Lean model and with the specification "live map = other members of the last snapshot"; quick: all snapshot sequences of length <=3 over a 6-snapshot alphabet '
-        'x {eager subscriber from the start, late subscriber, slow subscriber}; thorough: length <=5 and all read placements; non-trivial = at least one leave or address change; distinct by hash')
+        'x {eager subscriber from the start, late subscriber, slow subscriber}; thorough: length <=5 and all read placements; plus consumer-side cases: the real task distributor of a node (hook) is fed membership changes incl. an address change delivered as ONE change (same id in left and joined) and must send the next write to exactly the current members; non-trivial = at least one leave or address change; distinct by hash')
 ASSUMPTIONS = ['the membership layer delivers snapshots (states), the watcher turns them into deltas: both as in datacake-node/src/lib.rs',
                'tokio::sync::watch keeps only the latest value (modelled as a version + value cell)']
 TRUSTED_BASE = ['correspondence: dcharness (real watch_membership_changes + tokio watch + WatchStream) vs dcdriver (Datacake.Membership model)']
@@ -15,7 +15,7 @@ SNAPS = ['0:100', '0:100,1:101', '0:100,1:101,2:102', '0:100,2:102', '0:100,1:11
 
 
 def removable(line):
-    return line.startswith('mem-snap')     # the subscriber's reads are part of the scenario, not noise
+    return line.startswith('mem-snap')     # the subscriber's reads are part of the scenario, not noise (distributor cases are not shrunk)
 
 
 def mk(idx, snaps, sub_at, reads):
@@ -54,7 +54,69 @@ def generate(rng, tier):
                 for sub_at in range(ln + 1):
                     for mask in range(1 << ln):
                         cases.append(mk(idx, snaps, sub_at, {i for i in range(ln) if mask >> i & 1})); idx += 1
+    # consumer side: the REAL task distributor of node 0 is fed membership changes (joins, leaves, an address change =
+    # the same member id leaving at one address and joining at another IN ONE change, rejoin) and after each one a
+    # Consistency::None write is handed to it: it must reach exactly the current members (one batching tick each)
+    cases.append(['case %d cluster' % idx, 'nodes 4', 'dist-start 0', 'dist-change 0 - 12@2', 'dist-put 0 1 aa',
+                  'dist-change 0 12@2 12@3', 'dist-put 0 2 bb', 'dist-change 0 12@3 -', 'dist-put 0 3 cc', 'end']); idx += 1
+    for _ in range(dict(quick=3, thorough=60, search=8)[tier]):
+        cases.append(gen_dist(rng.fork(), idx)); idx += 1
     return cases
+
+
+def gen_dist(rng, idx):
+    lines = ['case %d cluster' % idx, 'nodes 4', 'dist-start 0']
+    members = {}          # member id -> node index (its address)
+    doc = 0
+    for _ in range(rng.range(2, 4)):
+        k = rng.below(5)
+        left, joined = [], []
+        free = [x for x in (1, 2, 3) if x not in members.values()]
+        if k == 0 and members and free:                      # address change of a live member, one change
+            mid = rng.choice(sorted(members)); new = rng.choice(free)
+            left.append('%d@%d' % (mid, members[mid])); joined.append('%d@%d' % (mid, new)); members[mid] = new
+        elif k == 1 and members:                             # leave
+            mid = rng.choice(sorted(members)); left.append('%d@%d' % (mid, members.pop(mid)))
+        elif free:                                           # join (possibly together with a leave of another member)
+            mid = rng.choice([m for m in (11, 12, 13, 14) if m not in members]); new = rng.choice(free)
+            if members and rng.chance(1, 3):
+                other = rng.choice(sorted(members)); left.append('%d@%d' % (other, members.pop(other)))
+            joined.append('%d@%d' % (mid, new)); members[mid] = new
+        else:
+            continue
+        lines.append('dist-change 0 %s %s' % (','.join(left) or '-', ','.join(joined) or '-'))
+        doc += 1
+        lines.append('dist-put 0 %d %02x' % (doc, rng.below(256)))
+    lines.append('end')
+    return lines
+
+
+def augment(case, impl):
+    return [l + ' ts=' + o.split('ts=')[1].split()[0] if l.startswith('dist-put') and 'ts=' in o else l for l, o in zip(case, impl)]
+
+
+def canon(line, out):
+    return out.split(' ts=')[0] if line.startswith('dist-put') else out
+
+
+def oracle(case, impl):
+    """distributor cases: a write reaches exactly the nodes at the addresses of the current members"""
+    bad = []
+    members = {}
+    for line, out in zip(case, impl):
+        t = line.split()
+        if t[0] == 'dist-change':
+            for m in ([] if t[2] == '-' else t[2].split(',')):
+                mid, at = m.split('@')
+                if members.get(int(mid)) == int(at): del members[int(mid)]
+            for m in ([] if t[3] == '-' else t[3].split(',')):
+                mid, at = m.split('@'); members[int(mid)] = int(at)
+        elif t[0] == 'dist-put':
+            want = ','.join(str(x) for x in sorted(set(members.values()))) or '-'
+            got = out.split(' ts=')[0].replace('recv ', '')
+            if got != want:
+                bad.append('%s: the write reached nodes %s, the live members are at %s' % (line, got, want))
+    return bad
 
 
 def explain(v):
